@@ -149,6 +149,11 @@ static void case_history(Rng& rng, uint64_t index)
 	{
 		Interpolation obj;
 		double P;
+		// the range of the last extremum query on this object (asked again later: seeded change C09-r6m2 kept both extrema of the last range and
+		// did not exchange them when Multiply() was called with a negative factor)
+		bool have_last = false;
+		double last_x1 = 0, last_x2 = 0;
+		bool last_k1 = false, last_k2 = false;
 	};
 	std::vector<Used> pool;
 	pool.push_back({construct(T), 1.0});
@@ -214,7 +219,10 @@ static void case_history(Rng& rng, uint64_t index)
 			double x2 = W.next_query();
 			bool k2	  = W.is_knot;
 			if(x1 > x2)
-				std::swap(x1, x2);
+				std::swap(x1, x2), std::swap(k1, k2);
+			if(U.have_last && rng.coin(0.4))
+				x1 = U.last_x1, x2 = U.last_x2, k1 = U.last_k1, k2 = U.last_k2;
+			U.have_last = true, U.last_x1 = x1, U.last_x2 = x2, U.last_k1 = k1, U.last_k2 = k2;
 			bool want_min = rng.coin();
 			double got	  = want_min ? U.obj.Local_Minimum(x1, x2) : U.obj.Local_Maximum(x1, x2);
 			Interpolation F = fresh(op);
@@ -265,6 +273,7 @@ static void case_history(Rng& rng, uint64_t index)
 		else if(u < 0.97)
 		{	// copy-construct a used object at this point of its history; the copy joins the pool
 			Used c {Interpolation(U.obj), U.P};
+			c.have_last = U.have_last, c.last_x1 = U.last_x1, c.last_x2 = U.last_x2, c.last_k1 = U.last_k1, c.last_k2 = U.last_k2;
 			if(pool.size() < 5)
 				pool.push_back(c);
 			else
@@ -298,6 +307,7 @@ static void case_history(Rng& rng, uint64_t index)
 			const Interpolation& src = pool[b].obj;
 			pool[a].obj				 = src;
 			pool[a].P				 = pool[b].P;
+			pool[a].have_last = pool[b].have_last, pool[a].last_x1 = pool[b].last_x1, pool[a].last_x2 = pool[b].last_x2, pool[a].last_k1 = pool[b].last_k1, pool[a].last_k2 = pool[b].last_k2;
 		}
 	}
 	uint64_t hunts = ticks("Locate.hunt") - hunts0;
